@@ -52,6 +52,7 @@ var c17OpNames = []string{"Send", "Recv", "SetDeadline", "Cancel", "Close"}
 type c17Event struct {
 	Proc, Op int
 	Kind     int
+	DL       time.Duration // setdeadline: the deadline as time since start (0 = cleared)
 	Val      int // send: id; recv: id received (or -1)
 	Err      error
 	Start    time.Duration
@@ -139,7 +140,12 @@ func c17Scenario(c c17Case, v *vlib.Verdict) {
 					case op.Arg == 0:
 						ev.Err = d.SetDeadline(time.Time{})
 					default:
-						ev.Err = d.SetDeadline(time.Now().Add(time.Duration(op.Arg) * time.Millisecond))
+						dl := time.Now().Add(time.Duration(op.Arg) * time.Millisecond)
+						ev.DL = dl.Sub(start)
+						if ev.DL == 0 {
+							ev.DL = 1
+						}
+						ev.Err = d.SetDeadline(dl)
 					}
 				case 3:
 					ev.Err = d.Cancel(errors.New("cancelled by the program"))
@@ -309,6 +315,66 @@ func c17Scenario(c c17Case, v *vlib.Verdict) {
 				v.Failf("C17:queue:eof-before-queued-item", "a Recv reported end-of-stream although item %d, queued before Close began, was still in the queue (it came out later)", id)
 				return
 			}
+		}
+	}
+	if os.Getenv("VERIF_VERBOSE") != "" {
+		sort.Slice(events, func(i, j int) bool { return events[i].seqStart < events[j].seqStart })
+		for _, e := range events {
+			fmt.Printf("EV g%d.%d %-11s seq[%d,%d] t[%v,%v] val=%d dl=%v err=%v\n", e.Proc, e.Op, c17OpNames[e.Kind], e.seqStart, e.seqEnd, e.Start, e.End, e.Val, e.DL, e.Err)
+		}
+	}
+	// deadline in force: for a Send/Recv that did not overlap any SetDeadline or Cancel call, the last SetDeadline that
+	// completed before it started determines the deadline D (none / cleared => no deadline). A timeout without a
+	// deadline in force, or before D, is not "an expired deadline"; a call that was still blocked a second after D
+	// was not released by it.
+	for _, e := range events {
+		if e.Kind > 1 {
+			continue
+		}
+		overlap := false
+		var last *c17Event
+		for _, sd := range events {
+			if sd.Kind != 2 && sd.Kind != 3 {
+				continue
+			}
+			if sd.seqStart < e.seqEnd && sd.seqEnd > e.seqStart {
+				overlap = true
+			}
+			if sd.seqEnd < e.seqStart && (last == nil || sd.seqEnd > last.seqEnd) {
+				last = sd
+			}
+		}
+		if overlap || (last != nil && (last.Kind == 3 || last.Err != nil)) {
+			continue
+		}
+		if last != nil {
+			// the effective order of two overlapping deadline changes is not observable: only judge when the last
+			// change before this call is unambiguous
+			ambiguous := false
+			for _, sd := range events {
+				if sd != last && (sd.Kind == 2 || sd.Kind == 3) && sd.seqStart < last.seqEnd && sd.seqEnd > last.seqStart {
+					ambiguous = true
+				}
+			}
+			if ambiguous {
+				continue
+			}
+		}
+		var D time.Duration
+		if last != nil {
+			D = last.DL
+		}
+		timedOut := e.Err != nil && errors.Is(e.Err, os.ErrDeadlineExceeded)
+		switch {
+		case timedOut && D == 0:
+			v.Failf("C17:queue:timeout-without-deadline", "%s g%d.%d returned %v at %v although no deadline was in force (last SetDeadline before it cleared it, or none)", c17OpNames[e.Kind], e.Proc, e.Op, e.Err, e.End)
+			return
+		case timedOut && e.End+time.Millisecond < D:
+			v.Failf("C17:queue:timeout-before-deadline", "%s g%d.%d returned %v at %v, before its deadline %v", c17OpNames[e.Kind], e.Proc, e.Op, e.Err, e.End, D)
+			return
+		case D > 0 && e.End > D+time.Second && e.End > e.Start+time.Second && e.seqEnd < closeSeq:
+			v.Failf("C17:queue:deadline-not-honoured", "%s g%d.%d started at %v with deadline %v in force and was still blocked at %v", c17OpNames[e.Kind], e.Proc, e.Op, e.Start, D, e.End)
+			return
 		}
 	}
 	// error kinds
